@@ -21,6 +21,7 @@ from ..ratfun import Rat
 from ..symex import (Inst, Func, Builtin, Rec, PyRaise, ModuleV, Opaque,
                      is_scalar, to_rat)
 from ..namodel import NA, DT, objarr, na_of
+from ..spacemodel import NotAnElement
 from ..spacemodel import (SMHooks, SMInterp, NSpace, NPSpace, NField, NElem,
                           NPElem, sym_elem, inner, flat)
 from .. import posalg as PA
@@ -52,7 +53,7 @@ class H9(SMHooks):
     def __init__(self):
         SMHooks.__init__(self)
         self.signs = Signs({'w', 'w0', 'w1', 'w2', 'p0', 'p1', 'gam', 'sig',
-                            'c'})
+                            'c', 'q0', 'q1', 'q2'})
 
     def atom1(self, name):
         if name == 'sign':
@@ -204,6 +205,33 @@ def builders(model):
         B['BregmanDistance[KullbackLeibler,%s]' % t] = lambda I, w=w: inst(
             I, 'BregmanDistance', leaf(I, w, 'KullbackLeibler'),
             sym_elem(X(w), 'y'), sym_elem(X(w), 'u'))
+    # a non-symmetric operator (unweighted: the weighted MatrixOperator
+    # adjoint is known finding F28 of C05) and nonlinear inner operators
+    def mat(name, shape):
+        a = _np.empty(shape, dtype=object)
+        for idx in _np.ndindex(*shape):
+            a[idx] = Rat.var(name + ''.join(map(str, idx)))
+        return NA(a, 'float64')
+    B['QuadraticForm[operator=MatrixOperator,vector]'] = lambda I: inst(
+        I, 'QuadraticForm', operator=inst(
+            I, 'MatrixOperator', mat('m', (3, 3)), domain=X(None),
+            range=X(None)), vector=sym_elem(X(None), 'b'))
+    B['QuadraticForm[operator=MatrixOperator]'] = lambda I: inst(
+        I, 'QuadraticForm', operator=inst(
+            I, 'MatrixOperator', mat('m', (3, 3)), domain=X(None),
+            range=X(None)))
+    for w in ('const', 'array'):
+        t = {'const': 'weight w', 'array': 'weights w0..w2'}[w]
+        for leafk in ('L2NormSquared', 'L2Norm', 'KullbackLeibler'):
+            B['expr:%s * PowerOperator(3)[%s]' % (leafk, t)] = (
+                lambda I, w=w, leafk=leafk: I.binop(
+                    ast.Mult, leaf(I, w, leafk),
+                    inst(I, 'PowerOperator', X(w), 3)))
+        B['expr:L2NormSquared * (Power2 + vector)[%s]' % t] = (
+            lambda I, w=w: I.binop(
+                ast.Mult, leaf(I, w, 'L2NormSquared'), I.binop(
+                    ast.Add, inst(I, 'PowerOperator', X(w), 2),
+                    sym_elem(X(w), 'v'))))
     return B
 
 
@@ -291,6 +319,10 @@ def run(rep, model):
                 e.name, ast.unparse(e.node)[:70] if e.node is not None
                 else '?'), rel, getattr(e.node, 'lineno', None))
             continue
+        except NotAnElement as e:
+            rep.violation('R6', name, 'a call yields no element: %s' % e,
+                          rel)
+            continue
         probs = list(r['grad_bad']) + list(r['der_bad'])
         for k in ('grad_exc', 'der_exc'):
             if k in r:
@@ -304,4 +336,4 @@ def run(rep, model):
             rep.holds('R6', name, 'gradient = differential / weights and '
                       'derivative(x)(d) = differential, for f(x) = %s'
                       % _s(r['fx']))
-    rep.floor('R6', 'evaluated functional instances', n, 40)
+    rep.floor('R6', 'evaluated functional instances', n, 90)
